@@ -59,6 +59,22 @@ def r_intarr2(rows, cols):
             s.op("INT", v + 1)
         s.op("INT", cols); s.op("INT", rows); s.op("MK_INIT_ARRAY", 2)
     return f
+def r_numarr2(push, rows, cols, vals):
+    """rows x cols matrix of the given scalar pushes (row-major values)"""
+    def f(s):
+        for v in reversed(vals):
+            push(v)(s)
+        s.op("INT", cols); s.op("INT", rows); s.op("MK_INIT_ARRAY", 2)
+    return f
+def r_numarr1(push, vals):
+    def f(s):
+        for v in reversed(vals):
+            push(v)(s)
+        s.op("INT", len(vals)); s.op("MK_INIT_ARRAY", 1)
+    return f
+import struct
+def f32bits(x): return struct.unpack("<I", struct.pack("<f", x))[0]
+def f64bits(x): return struct.unpack("<Q", struct.pack("<d", x))[0]
 def r_strarr(n):
     def f(s):
         s.op("INT", n); s.op("MK_ARRAY_STRING", 1)
@@ -90,6 +106,14 @@ KINDS = {
     "arr":   [("a3", r_intarr([10, 20, 30])), ("a1", r_intarr([7])), ("a_nil", r_elem0("MK_ARRAY_ARRAY"))],
     "mat":   [("m23", r_intarr2(2, 3)), ("m32", r_intarr2(3, 2)), ("m22", r_intarr2(2, 2)), ("a_nil", r_elem0("MK_ARRAY_ARRAY"))],
     "sarr":  [("sa2", r_strarr(2))],
+    # values chosen so that a wrong accumulator type shows: int products that wrap, float sums that round differently in double
+    "imat":  [("im22big", r_numarr2(r_int, 2, 2, [1073741824, 3, 65536, 2147483647])), ("im22", r_numarr2(r_int, 2, 2, [4, 65536, -7, 1073741824]))],
+    "lmat":  [("lm22", r_numarr2(r_long, 2, 2, [4294967296, 3, -5, 9007199254740993])), ("lm22b", r_numarr2(r_long, 2, 2, [3037000500, 2, 3037000500, 9007199254740993]))],
+    "fmat":  [("fm22", r_numarr2(lambda v: r_float(f32bits(v)), 2, 2, [1e8, 1.0, -1e8, 0.1])), ("fm22b", r_numarr2(lambda v: r_float(f32bits(v)), 2, 2, [16777216.0, 1.0, 1.0, 3.0]))],
+    "dmat":  [("dm22", r_numarr2(lambda v: r_double(f64bits(v)), 2, 2, [1e16, 1.0, -1e16, 0.1])), ("dm22b", r_numarr2(lambda v: r_double(f64bits(v)), 2, 2, [0.1, 0.2, 0.3, 1e308]))],
+    "larr":  [("la2", r_numarr1(r_long, [4294967296, -3]))],
+    "farr":  [("fa2", r_numarr1(lambda v: r_float(f32bits(v)), [16777216.0, 0.1]))],
+    "darr":  [("da2", r_numarr1(lambda v: r_double(f64bits(v)), [1e16, 0.1]))],
     "rec":   [("r2", r_record([4, 5])), ("r_nil", r_nilrec()), ("r_nil2", r_elem0("MK_ARRAY_RECORD"))],
     "fn":    [("fn_nil", r_elem0("MK_ARRAY_FUNC"))],
     "range": [("rg0_2", r_range(0, 2)), ("rg2_0", r_range(2, 0)), ("rg1_5", r_range(1, 5)), ("rg_m1_1", r_range(-1, 1)), ("rg_nil", r_nilrec())],
@@ -127,6 +151,11 @@ def table():
         add("OP_NEG_ARR_%s" % ty, ["arr"]); add("OP_ADD_ARR_%s" % ty, ["arr", "arr"]); add("OP_SUB_ARR_%s" % ty, ["arr", "arr"])
         add("OP_MUL_ARR_%s" % ty, ["int", "arr"]); add("OP_MUL_ARR_ARR_%s" % ty, ["mat", "mat"])
         add("OP_ADD_ARR_%s" % ty, ["mat", "mat"]); add("OP_SUB_ARR_%s" % ty, ["mat", "arr"])
+    for ty, mk, ak, sk in (("INT", "imat", "arr", "int"), ("LONG", "lmat", "larr", "long"), ("FLOAT", "fmat", "farr", "float"), ("DOUBLE", "dmat", "darr", "double")):
+        add("OP_MUL_ARR_ARR_%s" % ty, [mk, mk]); add("OP_ADD_ARR_%s" % ty, [mk, mk]); add("OP_SUB_ARR_%s" % ty, [mk, mk])
+        add("OP_NEG_ARR_%s" % ty, [mk]); add("OP_MUL_ARR_%s" % ty, [sk, mk])
+        if ty != "INT":
+            add("OP_ADD_ARR_%s" % ty, [ak, ak]); add("OP_NEG_ARR_%s" % ty, [ak])
     add("JUMPZ", ["int"], (0, 0, 0), False)
     add("ID_DIM_LOCAL", ["arr"], (1, 1, 0)); add("ID_DIM_LOCAL", ["mat"], (1, 1, 1)); add("ID_DIM_LOCAL", ["mat"], (1, 1, 2))
     add("ID_DIM_SLICE", ["slice"], (1, 1, 1)); add("ID_DIM_SLICE", ["slice"], (1, 1, 0))
